@@ -101,6 +101,7 @@ type Obligation struct {
 }
 
 type VC struct {
+	arrOrigin map[T]arrOrig // value mode: byte strings obtained by slicing a whole local byte array
 	eng      *Engine
 	fn       *ssa.Function
 	con      *Contract
@@ -824,4 +825,10 @@ func (vc *VC) constArray(arraySort string, z T) T {
 	vc.assume("(forall ((zi Int)) (! (= (select " + c + " zi) " + z + ") :pattern ((select " + c + " zi))))")
 	vc.zarrs[key] = c
 	return c
+}
+
+// arrOrig remembers that a value-mode byte string is arr[:] of the byte array stored at loc (n elements).
+type arrOrig struct {
+	loc *Loc
+	n   int64
 }
